@@ -29,7 +29,8 @@ TOL = 1e-10
 
 FAMS = [('spin12', 'dense'), ('spin12', 'Z2'), ('spin12', 'U1'), ('spinless', 'U1'), ('spin1', 'Z3'), ('spinful', 'U1xU1'), ('spinful', 'U1xU1xZ2')]
 NONBINDING = [{}, {'tol': 1e-14}, {'D_total': 10 ** 6}]
-BINDING = [{'D_total': 1}, {'D_total': 2}, {'D_block': 1}, {'tol': 0.3}, {'D_total': 2, 'tol': 0.05}]
+BINDING = [{'D_total': 1}, {'D_total': 2}, {'D_block': 1}, {'tol': 0.3}, {'D_total': 2, 'tol': 0.05},
+           {'D_block': 1, 'policy': 'lowrank'}, {'D_total': 2, 'D_block': 2, 'policy': 'lowrank'}]   # a driver choice must not change what is reported
 
 
 def _contract_chain(psi):
